@@ -288,7 +288,7 @@ def eng_bad(prop, tier, seed):
             log(r.stderr[-3000:])
             log("HARNESS-ERROR: build of the repository crates failed (not a property verdict)")
             sys.exit(2)
-    cnt["corpus_functions_compiled"] = 420 if r.returncode == 0 else 0
+    cnt["corpus_functions_compiled"] = sum(1 for l in open(os.path.join(HARNESS, "corpus", "src", "gen.rs")) if l.lstrip().startswith("FnDesc {")) if r.returncode == 0 else 0
     # 2. invalid lists / controls / borderline
     r = subprocess.run(["cargo", "check", "--offline", "-p", "badcorpus", "--bins", "--keep-going", "--message-format=json"], cwd=HARNESS, env=ENV, stdout=subprocess.PIPE, stderr=subprocess.PIPE, text=True)
     ok, errs = set(), {}
@@ -350,12 +350,18 @@ COMMON_ASSUME = [
     "histories are sampled (seeded PRNG), not exhausted; the result speaks only for the executions observed",
 ]
 
+CONC_RULE = ("CONCURRENCY: scenarios of 1-3 corpus functions (real macro expansions, sync global and async; thread scope for C14) and 2-3 threads (serial scheduler) or 2-8 threads (free-running with seeded "
+             "delays injected at lock attempt/release events) running programs of cached calls, invalidate_with / invalidate_all_with, tag/event/dependency/name invalidations, stats queries and clock steps. "
+             "The serial scheduler passes a baton at every lock attempt/release (hooked lock_api: parking_lot and DashMap shard locks), body entry and API-call boundary, with switch probabilities 1.0/0.4/0.15/0.06; "
+             "a deadlock is 'some thread unfinished and none enabled' (no timing involved). At quiescence: values, limit/max_memory bounds, unknown keys, eviction/expiry/invalidation probes, a sequential probe history, "
+             "hit+miss conservation, and the execution history are checked. Distinct = distinct (function set, schedule trace hash). ")
+
 L1_RULE = ("generated lookup/store/advance histories (40-200 ops + fill probe, re-stores of live keys with new values, time steps aimed at ttl-1ns / ttl / ttl+1ns) "
            "for every configuration in focus out of the product flavour(3) x policy(6) x limit{none,1..4} x ttl{none,1..3} x max_memory{none,120,200,400} x frequency_weight(6, TLRU), "
            "run on the real engines (GlobalCache / ThreadLocalCache / AsyncGlobalCache) with harness-owned storage and a virtual clock; after every operation the result, the whole store "
            "(keys, values) and the hit/miss counters are compared with the specification model (belief monitor). ")
 
-L2_RULE = ("MACRO LEVEL: generated multi-cache histories (30-120 operations + closing sweep) over groups of 1-6 functions of a generated corpus of 420 #[cache]/#[cache_async] functions "
+L2_RULE = ("MACRO LEVEL: generated multi-cache histories (30-120 operations + closing sweep) over groups of 1-6 functions of a generated corpus of 456 #[cache]/#[cache_async] functions "
            "(attribute presence/values x 10 argument shapes x free fn/&self/&mut self/self x 10 return kinds), calls issued from 1-4 worker threads (serialised), bodies scripted by the harness "
            "(fresh value per execution or deterministic, Ok/Err, payload size, cache_if and invalidate_on verdicts), virtual clock, conditional and group invalidations, stats resets; after every "
            "operation: returned value, body executed?, predicate/check invocations, key listing (never-matching invalidate_with predicate) and stats_registry are compared with the wrapper model. ")
@@ -369,11 +375,11 @@ prop("C05", ["l1", "l2"], "exploration",
 prop("C06", ["l1", "l2"], "exploration",
      L1_RULE + L2_RULE + "Non-trivial = a lookup of an entry while a ttl is configured; distinct = distinct (configuration, quarter-second age bucket, store size, exactly-on-a-second?).",
      COMMON_ASSUME, ("C06", "expired_lookups"))
-prop("C07", ["l1", "l2"], "exploration",
-     L1_RULE + L2_RULE + "Non-trivial = an overflowing store under FIFO/LRU whose victim set is compared with 'oldest stored' / 'least recently used'; distinct = distinct (configuration, residents, recency/insertion order shape, size class).",
+prop("C07", ["l1", "l2", "conc"], "exploration",
+     L1_RULE + L2_RULE + CONC_RULE + "After a concurrent phase the order in which old entries leave under fresh stores must not contradict the completed calls (LRU: last uses; FIFO: last stores). " + "Non-trivial = an overflowing store under FIFO/LRU whose victim set is compared with 'oldest stored' / 'least recently used'; distinct = distinct (configuration, residents, recency/insertion order shape, size class).",
      COMMON_ASSUME, ("C07", "victims_checked_limit_pressure"))
-prop("C08", ["l1", "l2"], "exploration",
-     L1_RULE + L2_RULE + "Non-trivial = an overflowing store under LFU/ARC/TLRU whose victim must be a score minimiser over the residents or over residents+newcomer; distinct = distinct (configuration, order shape, hit-count vector).",
+prop("C08", ["l1", "l2", "conc"], "exploration",
+     L1_RULE + L2_RULE + CONC_RULE + "After a concurrent phase an entry that was certainly served from the cache must not be evicted while a certainly never-hit entry (sync caches: the newcomer) is available. " + "Non-trivial = an overflowing store under LFU/ARC/TLRU whose victim must be a score minimiser over the residents or over residents+newcomer; distinct = distinct (configuration, order shape, hit-count vector).",
      COMMON_ASSUME + ["sync engines always hold a zero-score newcomer, so for them the check only establishes that a zero-score entry was evicted (stated in DESIGN.md C08)"], ("C08", "victims_checked_with_unique_resident_minimiser"))
 prop("C16", ["l1", "l2"], "exploration",
      L1_RULE + "Every operation runs under catch_unwind in a build with overflow checks and debug assertions. Non-trivial/distinct = configurations of the full product visited (each with overflow-heavy histories).",
@@ -384,12 +390,6 @@ prop("C02", ["key", "l2"], "exploration",
      "(render two neighbouring arguments with separators '', '|', ',', ' ', '\"|\"', ', ', move the boundary, re-parse); f(a); f(b); f(a) must execute twice and serve a its own serial; every 32 pairs the number of listed key strings must equal the number of distinct tuples stored. "
      "Non-trivial/distinct = distinct (function, a, b) pairs. " + L2_RULE + "There, a learned slot->key-string map must stay injective.",
      COMMON_ASSUME + ["'differ' means structural inequality of the argument values (0.0 and -0.0 differ; NaN is excluded)"], ("C02", "pairs"))
-CONC_RULE = ("CONCURRENCY: scenarios of 1-3 corpus functions (real macro expansions, sync global and async; thread scope for C14) and 2-3 threads (serial scheduler) or 2-8 threads (free-running with seeded "
-             "delays injected at lock attempt/release events) running programs of cached calls, invalidate_with / invalidate_all_with, tag/event/dependency/name invalidations, stats queries and clock steps. "
-             "The serial scheduler passes a baton at every lock attempt/release (hooked lock_api: parking_lot and DashMap shard locks), body entry and API-call boundary, with switch probabilities 1.0/0.4/0.15/0.06; "
-             "a deadlock is 'some thread unfinished and none enabled' (no timing involved). At quiescence: values, limit/max_memory bounds, unknown keys, eviction/expiry/invalidation probes, a sequential probe history, "
-             "hit+miss conservation, and the execution history are checked. Distinct = distinct (function set, schedule trace hash). ")
-
 prop("C17", ["conc"], "exploration",
      CONC_RULE + "Non-trivial = a schedule that ran to completion or to a diagnosed deadlock.",
      COMMON_ASSUME + ["serial mode does not model writer preference of parking_lot's RwLock and takes first-use registration (Once/Lazy) out of the scheduled phase by a single-threaded warm-up; both are exercised only in jitter mode",
@@ -400,8 +400,8 @@ prop("C18", ["conc"], "exploration",
 prop("C03", ["l2", "conc"], "exploration",
      CONC_RULE + L2_RULE + "Focus: functions with no limit/ttl/max_memory/cache_if/invalidate_on. Non-trivial = a repeat call for an argument tuple already stored (must not run the body; once per thread for scope=thread); at the end of every history without invalidations the execution count per distinct tuple must be exactly 1. Distinct = distinct (function, tuple, stored-before?, thread).",
      COMMON_ASSUME, ("C03", "repeat_calls_on_unbounded_caches"))
-prop("C09", ["l2"], "exploration",
-     L2_RULE + "Focus: functions returning Result / std::result::Result without cache_if (all scopes, policies, limits, with and without max_memory). Outcomes follow an arbitrary Ok/Err script per call. Non-trivial = a scripted Err outcome; distinct = distinct (function, tuple, cached?, outcome, previous non-store reason).",
+prop("C09", ["l2", "conc"], "exploration",
+     CONC_RULE + "For Result functions on unbounded, never-invalidated caches: no body execution may be invoked after an execution that returned Ok has returned (Err outcomes scripted per call, also concurrently). " + L2_RULE + "Focus: functions returning Result / std::result::Result without cache_if (all scopes, policies, limits, with and without max_memory). Outcomes follow an arbitrary Ok/Err script per call. Non-trivial = a scripted Err outcome; distinct = distinct (function, tuple, cached?, outcome, previous non-store reason).",
      COMMON_ASSUME, ("C09", "err_outcomes_scripted"))
 prop("C10", ["l2"], "exploration",
      L2_RULE + "Focus: functions with cache_if. Verdicts follow an arbitrary accept/reject script; every invocation is logged with key and value digest. Non-trivial = a rejecting verdict; distinct = distinct (function, tuple, cached?, verdict, outcome).",
@@ -422,7 +422,7 @@ prop("C15", ["l2", "conc"], "exploration",
      CONC_RULE + L2_RULE + "Focus: global and async functions (custom names included): stats_registry::get(name) must equal the model's hit/miss counters after every call, invalidation and reset; a reset of one name must leave the others unchanged. Non-trivial = a comparison; distinct = distinct (function, hits, misses) triples.",
      COMMON_ASSUME, ("C15", "stats_comparisons"))
 prop("C19", ["bad", "l1", "l2"], "translation_validation",
-     "Translation validation by differential execution: (a) the generated corpus of 420 functions (attribute presence/values x 10 argument shapes x free fn/&self/&mut self/self x 10 return kinds x both macros) must compile; "
+     "Translation validation by differential execution: (a) the generated corpus of 456 functions (attribute presence/values x 10 argument shapes x free fn/&self/&mut self/self x 10 return kinds x both macros) must compile; "
      "(b) every corpus function is driven by boundary-targeted histories (limit N probed with N and N+1 keys, ttl T at T-1ns/T, max_memory with totals between the decimal and the 1024-based reading of KB, policy-separating histories, "
      "scope with several threads, name via stats_registry, tags/events/dependencies via requests, scripted cache_if / invalidate_on) and compared with the core-level model configured from the *generator's* record of the attributes; "
      "(c) 66 invalid attribute lists (unknown names, typos, invalid policy/scope/limit/ttl/max_memory) must fail cargo check while the corrected twin of each compiles; borderline lists are reported without verdict. "
